@@ -23,6 +23,8 @@ def run(ctx, chk):
     chk.rule('C19.4', 'D', 'size tables equal the cartridge header tables; ROM bytes = banks x 16 KiB', floor=3)
     chk.rule('C19.5', 'D', 'a file shorter than its declared ROM size is rejected before it is mapped: the file length is '
              'compared with the declared size on every path to mmap', floor=1)
+    chk.rule('C19.8', 'D', 'a failed mapping is a controlled termination: the pointer returned by mmap is compared with '
+             'MAP_FAILED (all ones) and that branch diverges before the pointer is used', floor=1)
     chk.rule('C19.6', 'D', 'unsupported controller types terminate at load: create_cart_state diverges for them and is '
              'called from with_rom_file only', floor=2)
     chk.rule('C19.7', 'D', 'no unchecked reinterpretation of file bytes (from_utf8_unchecked and the like on header data)', floor=1)
@@ -230,6 +232,8 @@ def run(ctx, chk):
         chk.fail('C19.5', 'length-check', 'no comparison of the file length with the declared ROM size guards the path to mmap '
                  '(%s): a file shorter than its header declares is mapped beyond its end and faults when the missing part is '
                  'read' % ' -> '.join(p[0] for p in path), 'src/system/linux.rs', prog.fns['system::linux::map_rom_file']['line'])
+    # ---- rule 8: mmap failure
+    mapfail(chk, prog)
     # ---- rule 4
     cs = headercfg.configuration_space(facts)
     banks = {}
@@ -302,3 +306,72 @@ def run(ctx, chk):
                       'affine form over header bytes, path enumeration of load_rom (dominance of validation and of the '
                       'length check), exhaustive evaluation of the size/type tables over all 256 codes, taint of unchecked '
                       'conversions.', exhaustive=True)
+
+
+def mapfail(chk, prog):
+    MAPF = 'system::linux::map_rom_file'
+    fn = prog.fns.get(MAPF)
+    if fn is None:
+        chk.error('C19.8: %s not found' % MAPF)
+        return
+    file = fn['file']
+    calls = [(i, b['term']) for i, b in enumerate(fn['blocks']) if b['term']['k'] == 'call' and
+             (b['term']['resolved'] or b['term']['callee'] or '').endswith('libc::mmap')]
+    if not calls:
+        chk.error('C19.8: %s does not call libc::mmap (anchor lost)' % MAPF)
+        return
+    ok_all = True
+    why = ''
+    for bi, t in calls:
+        ptr = {t['dest']['local']}
+        # copies of the returned pointer
+        changed = True
+        while changed:
+            changed = False
+            for b in fn['blocks']:
+                for s_ in b['stmts']:
+                    if s_['k'] == 'assign' and not s_['place']['proj'] and s_['rv']['k'] in ('use', 'cast'):
+                        op = s_['rv'].get('op')
+                        if op and op['k'] in ('copy', 'move') and op['place']['local'] in ptr and not op['place']['proj'] \
+                                and s_['place']['local'] not in ptr:
+                            ptr.add(s_['place']['local'])
+                            changed = True
+        guarded = False
+        for b in fn['blocks']:
+            for s_ in b['stmts']:
+                rv = s_['rv'] if s_['k'] == 'assign' else None
+                if not rv or rv['k'] != 'binop' or rv['op'] not in ('Eq', 'Ne'):
+                    continue
+                ops = [rv['a'], rv['b']]
+                has_ptr = any(o['k'] in ('copy', 'move') and o['place']['local'] in ptr for o in ops)
+                consts = [o for o in ops if o['k'] == 'const']
+                if not has_ptr or not consts or consts[0].get('val') != (1 << 64) - 1:
+                    continue
+                flag = s_['place']['local']
+                tt = b['term']
+                if tt['k'] != 'switch':
+                    continue
+                # the edge taken when the pointer equals MAP_FAILED must diverge
+                eq_edge = None
+                if rv['op'] == 'Eq':
+                    eq_edge = tt['otherwise'] if all(v == 0 for v, _ in tt['targets']) else None
+                    for v, tgt in tt['targets']:
+                        if v == 1:
+                            eq_edge = tgt
+                else:
+                    for v, tgt in tt['targets']:
+                        if v == 0:
+                            eq_edge = tgt
+                if eq_edge is None:
+                    continue
+                tb = fn['blocks'][eq_edge]['term']
+                if tb['k'] == 'call' and tb['target'] < 0 and prog.is_panic_callee(tb['resolved'] or tb['callee'] or ''):
+                    guarded = True
+        if not guarded:
+            ok_all = False
+            why = ('the pointer returned by mmap is not compared with MAP_FAILED ((void*)-1) on a branch that diverges: a '
+                   'failed mapping is handed on as the ROM buffer and faults at the first access')
+    if ok_all:
+        chk.ok('C19.8', 'mmap-failure', sample={'function': MAPF, 'guard': 'pointer == MAP_FAILED -> panic'})
+    else:
+        chk.fail('C19.8', 'mmap-failure', why, file, fn['line'])
